@@ -32,6 +32,15 @@ namespace opensmt {
 #ifdef OPENSMT_VERIF
 // "(ms <solver> <op> (frames <n>) (unsat <b0 b1 ...>) (fns <firstNotSimplifiedFrame>) (inserted <count>) <extra>)":
 // the assertion-stack bookkeeping after an operation of MainSolver
+// "(pp <solver> <frame index> <conjunction of the frame's assertions> <formula handed to the clausifier> (<vars>))"
+void MainSolver::verifTracePreprocessed(std::size_t frameIndex, PTRef frameAssertions, PTRef given) const {
+    if (not veriftrace::on()) { return; }
+    char buf[32];
+    std::snprintf(buf, sizeof buf, "%p", static_cast<void const *>(this));
+    veriftrace::line(std::string("(pp ") + buf + " " + std::to_string(frameIndex) + " " + logic.termToSMT2String(frameAssertions) + " "
+                     + logic.termToSMT2String(given) + " " + veriftrace::varsWithSorts(logic, std::vector<PTRef>{frameAssertions, given}) + ")");
+}
+
 void MainSolver::verifTraceState(char const * op, std::string const & extra) const {
     if (not veriftrace::on()) { return; }
     std::string flags;
@@ -133,7 +142,19 @@ void MainSolver::insertFormula(PTRef fla) {
         throw ApiException("Top-level assertion sort must be Bool, got " + logic.sortToString(logic.getSortRef(fla)));
     }
     // TODO: Move this to preprocessing of the formulas
+#ifdef OPENSMT_VERIF
+    PTRef const verifOriginal = fla;
+#endif
     fla = IteHandler(logic, getPartitionManager().getNofPartitions()).rewrite(fla);
+#ifdef OPENSMT_VERIF
+    if (veriftrace::on()) {
+        // "(ins <solver> <asserted formula> <formula stored in the frame> (<vars>))"
+        char buf[32];
+        std::snprintf(buf, sizeof buf, "%p", static_cast<void const *>(this));
+        veriftrace::line(std::string("(ins ") + buf + " " + logic.termToSMT2String(verifOriginal) + " " + logic.termToSMT2String(fla) + " "
+                         + veriftrace::varsWithSorts(logic, std::vector<PTRef>{verifOriginal, fla}) + ")");
+    }
+#endif
 
     if (trackPartitions()) {
         // MB: Important for HiFrog! partition index is the index of the formula in an virtual array of inserted
@@ -196,6 +217,9 @@ sstat MainSolver::simplifyFormulas() {
                 }
                 assert(pmanager.getPartitionIndex(fla) != -1);
                 pmanager.propagatePartitionMask(fla);
+#ifdef OPENSMT_VERIF
+                verifTracePreprocessed(i, logic.mkAnd(frames[i].formulas), fla);
+#endif
                 status = giveToSolver(fla, frames[i].getId());
                 if (status == s_False) { break; }
             }
@@ -207,6 +231,9 @@ sstat MainSolver::simplifyFormulas() {
             frameFormula = theory->preprocessAfterSubstitutions(frameFormula, context);
 
             if (logic.isFalse(frameFormula)) {
+#ifdef OPENSMT_VERIF
+                verifTracePreprocessed(i, logic.mkAnd(frames[i].formulas), frameFormula);
+#endif
                 giveToSolver(logic.getTerm_false(), frames[i].getId());
                 status = s_False;
                 break;
@@ -215,6 +242,9 @@ sstat MainSolver::simplifyFormulas() {
             theory->afterPreprocessing(preprocessor.getPreprocessedFormulas());
             // Optimize the dag for cnfization
             if (logic.isBooleanOperator(frameFormula)) { frameFormula = rewriteMaxArity(frameFormula); }
+#ifdef OPENSMT_VERIF
+            verifTracePreprocessed(i, logic.mkAnd(frames[i].formulas), frameFormula);
+#endif
             status = giveToSolver(frameFormula, frames[i].getId());
         }
     }
